@@ -153,6 +153,8 @@ type ERSView struct {
 	FirstWriteSeq uint64
 	Settings      []*v1.ExtendedDaemonsetSetting // as listed by the sync, in list order
 	PodListFailed bool                           // a pod listing before the first write returned an error
+	// SettingsListFailed: the listing of the settings returned an error (Settings then holds the stored ones)
+	SettingsListFailed bool
 }
 
 func roleOf(eds *v1.ExtendedDaemonSet, rsName string) string {
@@ -185,6 +187,11 @@ func ersView(inv *simapi.Invocation) *ERSView {
 			if c.Verb == "list" && c.Kind == simapi.KindPod && v.FirstWriteSeq == 0 && c.Outcome != simapi.OutVoid &&
 				!strings.Contains(c.Selector, v1.ExtendedDaemonSetReplicaSetCanaryLabelKey) {
 				v.PodListFailed = true
+			}
+			if c.Verb == "list" && c.Kind == simapi.KindSetting && v.Settings == nil && c.Outcome != simapi.OutVoid {
+				// the listing of the settings was refused: a sync that goes on regardless is judged against the
+				// settings that exist (it cannot know them, which is why it has to give up instead)
+				v.SettingsListFailed = true
 			}
 			continue
 		}
@@ -311,6 +318,16 @@ func (m *Monitors) onERS(inv *simapi.Invocation, out kit.Outcome) {
 	v := ersView(inv)
 	if v.RS == nil || v.EDS == nil {
 		return
+	}
+	if v.SettingsListFailed && v.Settings == nil {
+		// the listing of the settings was refused: a sync that goes on regardless is judged against the settings
+		// that exist (it cannot know them, which is why it has to give up instead)
+		for _, o := range m.w.S.All(simapi.KindSetting) {
+			if o.GetNamespace() == v.RS.Namespace {
+				v.Settings = append(v.Settings, o.(*v1.ExtendedDaemonsetSetting))
+			}
+		}
+		sort.Slice(v.Settings, func(i, j int) bool { return v.Settings[i].Name < v.Settings[j].Name })
 	}
 	rsTpl := &v.RS.Spec.Template
 	role := v.Role
@@ -976,6 +993,8 @@ type edsView struct {
 	EDS *v1.ExtendedDaemonSet
 	RSs []*v1.ExtendedDaemonSetReplicaSet // as listed (may contain foreign ones: C12's defect)
 	Own []*v1.ExtendedDaemonSetReplicaSet // those of this EDS per namespace + label
+	// RSListFailed: the listing of the replica sets returned an error
+	RSListFailed bool
 }
 
 func (m *Monitors) onEDS(inv *simapi.Invocation, out kit.Outcome) {
@@ -983,6 +1002,9 @@ func (m *Monitors) onEDS(inv *simapi.Invocation, out kit.Outcome) {
 	var v edsView
 	for _, c := range inv.Calls {
 		if c.Err != nil {
+			if c.Verb == "list" && c.Kind == simapi.KindERS && c.Outcome != simapi.OutVoid {
+				v.RSListFailed = true
+			}
 			continue
 		}
 		if c.Verb == "get" && c.Kind == simapi.KindEDS && v.EDS == nil && len(c.Objs) == 1 {
@@ -1000,6 +1022,21 @@ func (m *Monitors) onEDS(inv *simapi.Invocation, out kit.Outcome) {
 	}
 	if v.EDS == nil {
 		return
+	}
+	// The ExtendedDaemonSet is written with full-object updates under optimistic concurrency: an applied write
+	// replaces exactly the version the writer holds. When the first applied write of this reconcile replaced a
+	// version other than the one the reconcile read at its start, someone else wrote the object in between and
+	// the reconcile got hold of that newer version: what it publishes has to be right for the version it
+	// overwrites, so the rules below judge against that version (equal to the one read at the start in every
+	// reconcile that was not overtaken).
+	for _, c := range inv.Calls {
+		if c.Kind == simapi.KindEDS && (c.Verb == "update" || c.Verb == "status-update") && c.Applied() && c.Pre != nil {
+			if pre, ok := c.Pre.(*v1.ExtendedDaemonSet); ok && pre.Namespace == v.EDS.Namespace && pre.Name == v.EDS.Name && pre.ResourceVersion != v.EDS.ResourceVersion {
+				ctx.Count("C11.eds-write-replaced-a-version-newer-than-the-first-read")
+				v.EDS = pre.DeepCopy()
+			}
+			break
+		}
 	}
 	for _, rs := range v.RSs {
 		if rs.Namespace == v.EDS.Namespace {
@@ -1066,6 +1103,18 @@ func (m *Monitors) onEDS(inv *simapi.Invocation, out kit.Outcome) {
 			for _, rs := range v.Own {
 				if rs.DeletionTimestamp == nil && kit.MarkerOfTemplate(&rs.Spec.Template) == mk && specEqual(&rs.Spec.Template, &sub.Spec.Template) {
 					m.viol("C13", "C13.one-per-template", nil, inv, map[string]any{"existing": rs.Name, "template": mk})
+				}
+			}
+			// the same against the store when the reconcile's own listing of the replica sets failed (its view is
+			// then empty although replica sets exist): only the ExtendedDaemonSet controller creates them
+			if c.Applied() && v.RSListFailed {
+				for _, rs := range kit.RSs(m.w.S) {
+					if c.Post != nil && rs.Name == c.Post.GetName() {
+						continue
+					}
+					if rs.Namespace == sub.Namespace && rs.Labels[v1.ExtendedDaemonSetNameLabelKey] == v.EDS.Name && rs.DeletionTimestamp == nil && specEqual(&rs.Spec.Template, &sub.Spec.Template) {
+						m.viol("C13", "C13.one-per-template", map[string]string{"existing": "in-store-after-failed-listing"}, inv, map[string]any{"existing": rs.Name, "template": mk})
+					}
 				}
 			}
 			if !specEqual(&sub.Spec.Template, &v.EDS.Spec.Template) {
